@@ -260,9 +260,12 @@ def offenders(res):
         tw = teardown_waiters(res)
         Hs = observe(res)
         # (a) reported as timed out, sent SIGTERM, ignores it; (b) ended normally, never sent anything, runs on
+        # (b) only if the target's polled streams really end by themselves (script): a worker that left its read loop
+        # early for any other reason and then waits for the command is NOT this finding
         imm = [(i, t) for i, never, t in tw if never and
                ((Hs[i]["timeout_at"] is not None and t and case["behaviours"][i].get("ignoreterm")) or
-                (Hs[i]["timeout_at"] is None and not t))]
+                (Hs[i]["timeout_at"] is None and not t and stream_end(case["behaviours"][i], streams) is not None and
+                 all(Hs[i]["closed"][k] for k in range(2 if sopt else 1))))]
         if tw and len(imm) == len(tw):
             out.append(("no-return:teardown-waits-for-command",
                         "command timeout %d, but dsh() never returns: %s; the command timeout does not apply to the "
